@@ -53,7 +53,7 @@ NAMES = {'cache1': ['c1', 'cut'], 'cache_net': ['net_fail', 'c2'], 'cache2': ['c
 
 
 def check(run):
-  timeout = 420 if run.tier == 'quick' else 1500
+  timeout = 900 if run.tier == 'quick' else 2400
   lens = [0, 1, 3] if run.tier == 'quick' else [0, 1, 2, 3, 4]
   run.functions += ['datasets.downloads.maybe_download', 'maybe_lzma_decompress', 'validate_file', 'datasets.cifar100.load_split (cache branch)']
   run.trusted += ['CrossHair "Confirmed over all paths"', 'fs model with crash injection (buffered writers: data below 8 KiB stays in memory until flush/close '
